@@ -148,6 +148,10 @@ impl<I: Iterator> Iterator for Items<I> {
         self.it.next()
     }
     fn size_hint(&self) -> (usize, Option<usize>) {
+        // String asks once, before it starts iterating; an iterator may not like being asked in the middle
+        if self.calls > 0 {
+            panic!("{}", CB_PANIC);
+        }
         if self.exact {
             let left = self.hint.saturating_sub(self.calls.max(0) as usize);
             (left, Some(left))
@@ -187,6 +191,22 @@ impl std::fmt::Display for Pieces<'_> {
         }
         Ok(())
     }
+}
+
+/// `write!(s, "<literal>")` for the texts of the scenario alphabets (a format string without arguments is a `&'static str`
+/// to `fmt::Arguments::as_str`, which an implementation may treat specially); None if the text is not one of them.
+pub fn write_literal(text: &str, target: Option<&mut LeanString>) -> Option<std::fmt::Result> {
+    use std::fmt::Write as _;
+    macro_rules! lits {
+        ($($l:literal),*) => {
+            match text {
+                $($l => Some(match target { Some(t) => write!(t, $l), None => Ok(()) }),)*
+                _ => None,
+            }
+        };
+    }
+    lits!("", "a", "b", "x", "abcdefghijklmno", "abcdefghijklmnop", "abcdefghijklmnopq", "\u{e9}", "\u{20ac}", "\u{1d11e}", "abcdefghijklm\u{20ac}",
+          "a\u{e9}\u{20ac}\u{1d11e}bc\u{1d11e}\u{20ac}\u{e9}d")
 }
 
 /// A piece that is one char is handed over with `write_char` (what `write!(f, "{}", ch)` and padding do),
@@ -287,6 +307,9 @@ impl Pool {
             "push_str" => {
                 let mut v = both(&[""]);
                 v.extend(plain(&["add_assign", "write_str", "write_fmt"]));
+                if write_literal(s_of(&op.s), None).is_some() {
+                    v.extend(plain(&["write_lit"])); // write!(s, "literal"): a format string without arguments
+                }
                 if !faulty {
                     v.extend(plain(&["add"]));
                 }
@@ -310,7 +333,8 @@ impl Pool {
                     }
                     v
                 } else {
-                    let mut v = plain(&["str", "string", "box", "cow"]);
+                    // *_sized: the iterator reports how many PIECES are left (what a slice / Vec iterator does) - not a byte count
+                    let mut v = plain(&["str", "string", "box", "cow", "str_sized", "string_sized"]);
                     if true { // items that are heap LeanStrings are built as foreign blocks (shim::foreign)
                         v.extend(plain(&["lean"]));
                     }
@@ -325,7 +349,8 @@ impl Pool {
                     }
                     v
                 } else {
-                    let mut v = plain(&["str", "string", "box", "cow"]);
+                    // *_sized: the iterator reports how many PIECES are left (what a slice / Vec iterator does) - not a byte count
+                    let mut v = plain(&["str", "string", "box", "cow", "str_sized", "string_sized"]);
                     if true { // items that are heap LeanStrings are built as foreign blocks (shim::foreign)
                         v.extend(plain(&["lean"]));
                     }
@@ -787,6 +812,10 @@ impl Pool {
                         mx(|| s.write_str(a)).unwrap();
                         Out::Ok
                     }
+                    ("write_lit", _) => {
+                        mx(|| write_literal(a, Some(s))).unwrap().unwrap();
+                        Out::Ok
+                    }
                     ("write_fmt", _) => {
                         mx(|| write!(s, "{}", a)).unwrap();
                         Out::Ok
@@ -884,6 +913,8 @@ impl Pool {
                         mx(|| s.extend(Items { it: cs.iter(), calls: 0, m, hint, exact }))
                     }
                     "str" => mx(|| s.extend(Items { it: items.iter().map(|b| s_of(b)), calls: 0, m, hint, exact })),
+                    "str_sized" => mx(|| s.extend(Items { it: items.iter().map(|b| s_of(b)), calls: 0, m, hint: items.len(), exact: true })),
+                    "string_sized" => mx(|| s.extend(Items { it: items.iter().map(|b| s_of(b).to_string()), calls: 0, m, hint: items.len(), exact: true })),
                     "string" => mx(|| s.extend(Items { it: items.iter().map(|b| s_of(b).to_string()), calls: 0, m, hint, exact })),
                     "box" => mx(|| s.extend(Items { it: items.iter().map(|b| s_of(b).to_string().into_boxed_str()), calls: 0, m, hint, exact })),
                     "cow" => mx(|| s.extend(Items { it: items.iter().map(|b| Cow::Borrowed(s_of(b))), calls: 0, m, hint, exact })),
@@ -906,6 +937,8 @@ impl Pool {
                         mx(|| Items { it: cs.iter(), calls: 0, m, hint, exact }.collect())
                     }
                     "str" => mx(|| Items { it: items.iter().map(|b| s_of(b)), calls: 0, m, hint, exact }.collect()),
+                    "str_sized" => mx(|| Items { it: items.iter().map(|b| s_of(b)), calls: 0, m, hint: items.len(), exact: true }.collect()),
+                    "string_sized" => mx(|| Items { it: items.iter().map(|b| s_of(b).to_string()), calls: 0, m, hint: items.len(), exact: true }.collect()),
                     "string" => mx(|| Items { it: items.iter().map(|b| s_of(b).to_string()), calls: 0, m, hint, exact }.collect()),
                     "box" => mx(|| Items { it: items.iter().map(|b| s_of(b).to_string().into_boxed_str()), calls: 0, m, hint, exact }.collect()),
                     "cow" => mx(|| Items { it: items.iter().map(|b| Cow::Borrowed(s_of(b))), calls: 0, m, hint, exact }.collect()),
